@@ -1695,11 +1695,11 @@ pub fn run(ctx: &mut Ctx) {
          all_at_once, read_line, peek_line and the side-band readers. distinct = (part, kinds/length classes, chunk patterns, config, outcome class).",
     );
     ctx.assume("Miri run of the design was dropped: gix-packetline is #![deny(unsafe_code)]; panics unwind and are caught in-process");
-    let n = ctx.n(40_000, 800_000);
+    let n = ctx.n(40_000, 200_000);
     ctx.cases("roundtrip", n, roundtrip_case);
-    let n = ctx.n(8_000, 150_000);
+    let n = ctx.n(8_000, 60_000);
     ctx.cases("stream", n, stream_case);
-    let n = ctx.n(6_000, 120_000);
+    let n = ctx.n(6_000, 50_000);
     ctx.cases("sideband", n, sideband_case);
     let n = ctx.n(800, 10_000);
     ctx.cases("writer", n, writer_case);
